@@ -106,3 +106,7 @@ CLAUSES = [
                 "non-trivial: the expression is changed by simplification"),
 ]
 KNOWN_PREDICATES = {}
+
+# coverage-guided second driver (atheris / libFuzzer through Hypothesis' fuzz_one_input) for the core clauses: (clause, quick runs, thorough runs)
+from harness.covfuzz import cov_clauses  # noqa: E402
+CLAUSES += cov_clauses('C05', CLAUSES, [('match', 4000, 80000), ('simplify', 4000, 80000)])
